@@ -525,7 +525,8 @@ func (b *band) getCFListChannels() *lorawan.CFList {
 		}
 	}
 
-	if pl.Channels[0] == 0 {
+	// no custom channels for the CFList
+	if i == 0 {
 		return nil
 	}
 
